@@ -77,6 +77,7 @@ func (c01) Plan(tier string, seed int64) []mon.Workload {
 		{Name: "malformed-slots", N: n / 40},
 		{Name: "time-zones", N: int64(len(c12Times) * len(gen.Zones)), Exhaustive: true},
 		{Name: "extreme-index", N: int64(len(c01IdxObjs) * len(c01IdxVals) * len(c01IdxUses)), Exhaustive: true},
+		{Name: "rebinding-index", N: int64(len(c01RebindObjs) * len(c01RebindNew) * len(c01RebindUses)), Exhaustive: true},
 		{Name: "many-locals", N: manyLocalsN(), Exhaustive: true},
 		{Name: "deep-run", N: int64(len(c01DeepKinds) * len(c01DeepLevels)), Exhaustive: true},
 	}
@@ -273,10 +274,42 @@ func c01ExtremeIndex(i int64) []*gt.T {
 	return gt.CloneStmts(l)
 }
 
+// rebinding-index (exhaustive): an index or slice expression whose key
+// re-binds the very variable being indexed (a named argument is an assignment
+// inside an expression: `a[len(a = [0])] += 1`), as a read, a plain write and
+// every compound write, at depth 1 and 2, with the new value shorter / of the
+// other container kind / a scalar. Whatever the outcome, it is a value or a
+// reported error.
+var c01RebindObjs = []string{"[1, 2, 3]", "[[1, 2, 3], [4, 5, 6], [7, 8, 9]]", "{\"a\": 1, \"b\": [1, 2, 3]}", "\"abcdef\"", "[{\"k\": [1, 2]}, 5, 6]"}
+var c01RebindNew = []string{"[0]", "[]", "{\"z\": 1}", "nil", "\"s\"", "7", "[[0]]", "{}"}
+var c01RebindUses = []string{"a[len(a = N)] += 1", "a[len(a = N)] = 1", "p(a[len(a = N)])", "a[2][len(a = N)] *= 2", "a[len(a = N)][0] -= 1", "a[\"b\"][len(a = N)] /= 1", "a[\"b\"][len(a = N)] = 9",
+	"p(a[len(a = N):])", "p(a[:len(a = N)])", "p(a[0:3:len(a = N)])", "a[1] += len(a = N)", "a[len(b = N)] %= 2", "a[0][\"k\"][len(a = N)] += 1", "x = a[len(a = N)] + a[0]", "a[len(a = N) + 1] += a[0]",
+	"p(a[len(_ = N)])", "a[-len(a = N)] += 1", "for e in a {\n  a[len(a = N)] += 1\n}", "a[len(a = N)], a[0] = 1, 2"}
+
+func c01Rebinding(i int64) []*gt.T {
+	use := c01RebindUses[int(i)%len(c01RebindUses)]
+	i /= int64(len(c01RebindUses))
+	nw := c01RebindNew[int(i)%len(c01RebindNew)]
+	obj := c01RebindObjs[int(i)/len(c01RebindNew)]
+	text := "a = " + obj + "\nb = 0\n" + strings.ReplaceAll(use, "N", nw) + "\np(\"survived\")\n"
+	o := drive.Parse("rebinding", text)
+	if o.Err != nil {
+		// a spelling the grammar does not take (multi-assignment on v1): nothing to run
+		return []*gt.T{gt.Call("p", gt.Str("not a program"))}
+	}
+	l, err := gt.FromStmts(o.Stmts)
+	if err != nil {
+		panic(err)
+	}
+	return gt.CloneStmts(l)
+}
+
 func (c01) build(c *mon.Ctx, workload string, i int64) (main []*gt.T, lib []*gt.T) {
 	switch workload {
 	case "extreme-index":
 		return c01ExtremeIndex(i), nil
+	case "rebinding-index":
+		return c01Rebinding(i), nil
 	case "many-locals":
 		return manyLocalsProgram(i), nil
 	case "deep-run":
